@@ -333,6 +333,7 @@ def run_case(case):
       d2 = mw.make_data(mjm2, m2, states, **caps)
       mjw.forward(m2, d2)
       ovf1, ovf2 = mw.overflow(d), mw.overflow(d2)
+      rows_agree = [False] * nworld
       for w in range(nworld):
         r1, r2 = rows_w[w], mw.efc_rows(mjm2, m2, d2, w)
         ctx = f"world {w} (dense vs sparse)"
@@ -343,16 +344,35 @@ def run_case(case):
         if v0 == "viol":
           continue
         ok = True
-        for f in ("type", "id", "J", "pos", "D", "aref", "vel", "frictionloss"):
-          a, b = np.asarray(r1[f]), np.asarray(r2[f])
-          if f in ("type", "id"):
-            # contact pool slots may be numbered differently; compare only the types
-            if f == "id":
-              continue
-          vv = cmp.first_divergence(rec, "efc." + f, a if f == "type" else a.astype(np.float32), b if f == "type" else b.astype(np.float32), sig_prefix="dense_vs_sparse:", ctx=ctx)
-          ok = ok and vv in ("bit", "round")
+        vt = cmp.first_divergence(rec, "efc.type", np.asarray(r1["type"]), np.asarray(r2["type"]), sig_prefix="dense_vs_sparse:", ctx=ctx)
+        if vt == "viol":
+          continue
+        for f in ("J", "pos", "D", "aref", "vel", "frictionloss"):
+          # row by row, relative to the row's own magnitude (a D=1e15 row must not hide a 2x error elsewhere)
+          a = np.asarray(r1[f], dtype=np.float64).reshape(r1["nefc"], -1)
+          b = np.asarray(r2[f], dtype=np.float64).reshape(r2["nefc"], -1)
+          sc = np.maximum(1.0, np.maximum(np.abs(a).max(axis=1), np.abs(b).max(axis=1)))
+          rel = np.abs(a - b).max(axis=1) / sc
+          rec.check()
+          if not np.all(np.isfinite(rel)):
+            rec.viol(f"dense_vs_sparse:efc.{f}:nonfinite", f"efc.{f} not finite {ctx}")
+            ok = False
+            continue
+          i = int(np.argmax(rel))
+          rec.worst(f"fd:efc.{f}", float(rel[i]) / 1e-4)
+          if rel[i] >= 1e-2:
+            t = int(r1["type"][i])
+            rec.viol(
+              f"dense_vs_sparse:efc.{f}:{E.TYPE_NAME[t]}",
+              f"efc.{f} of row {i} ({E.TYPE_NAME[t]} id {int(r1['id'][i])}) differs between jacobian=dense and sparse: {a[i].ravel()[:6].tolist()} vs {b[i].ravel()[:6].tolist()} (rel {rel[i]:.3g}) {ctx}; dense is the {'second' if m.is_sparse else 'first'} run",
+            )
+            ok = False
+          elif rel[i] > 1e-4:
+            rec.inconcl(f"efc.{f} dense vs sparse between round-off and violation line")
+            ok = False
         if not ok:
           continue
+        rows_agree[w] = True
         if (int(ovf1[w]) | int(ovf2[w])) & (E.OVF_ITER | E.OVF_LS):
           rec.count("dense_vs_sparse_qacc_not_judged(iteration limit)")
           continue
@@ -396,6 +416,8 @@ def run_case(case):
         for w in range(nworld):
           if (int(mw.overflow(d)[w]) | int(mw.overflow(d2)[w])) & (E.OVF_ITER | E.OVF_LS | E.OVF_NEFC | E.OVF_NNZ | E.OVF_CONTACT):
             continue
+          if not rows_agree[w]:
+            continue  # a row difference was already reported (or was not judged); the next state only echoes it
           if np.all(np.isfinite(a[w])) and np.all(np.isfinite(b[w])) and np.abs(a[w]).max() < 1e6:
             cmp.first_divergence(rec, f, a[w], b[w], sig_prefix="dense_vs_sparse:next_", ctx=f"world {w} after one step")
   for f in feat:
